@@ -195,20 +195,22 @@ theorem simplifyWord_shrinks : ∀ parts : List Node, ShrinksL parts (simplifyWo
     split
     · rename_i dattrs dv la v
       split
-      · -- continue parts
-        constructor
-        · intro h; simp only at h ⊢; rw [ih.1 h]
-        · intro h; simp only at h ⊢
-          have := ih.2 h
-          simp only [weightList]; omega
-      · rename_i nv hnv
-        split
-        · exact shrinksL_refl _
-        · apply shrinksL_true
-          have := ih.le
-          simp only [weight, weightList, bonus]
-          simp
-          omega
+      · exact shrinksL_refl _
+      · split
+        · -- continue parts
+          constructor
+          · intro h; simp only at h ⊢; rw [ih.1 h]
+          · intro h; simp only at h ⊢
+            have := ih.2 h
+            simp only [weightList]; omega
+        · rename_i nv hnv
+          split
+          · exact shrinksL_refl _
+          · apply shrinksL_true
+            have := ih.le
+            simp only [weight, weightList, bonus]
+            simp
+            omega
     · exact shrinksL_refl _
 
 theorem unquoteParams_shrinks (x : Node) : Shrinks x (unquoteParams x) := by
